@@ -47,7 +47,7 @@ class Ctl(object):
   __slots__ = ('sim', 'name', 'idx', 'sem', 'state', 'cond', 'wake_at', 'real',
                'target', 'args', 'kwargs', 'exc', 'role', 'desc', 'prio',
                'result', 'daemon', 'user', 'timed_out', 'started_seq', 'ended_seq',
-               'steps')
+               'steps', 'atomic')
 
   def __init__(self, sim, name, idx, target, args, kwargs, role):
     self.sim = sim
@@ -70,6 +70,7 @@ class Ctl(object):
     self.started_seq = None
     self.ended_seq = None
     self.steps = 0
+    self.atomic = 0   # > 0: inside a stub operation that is atomic in CPython (queue mutex held)
 
   def __repr__(self):
     return '<Ctl %s %s>' % (self.name, STATE_NAMES[self.state])
@@ -200,6 +201,32 @@ class RoundRobin(Policy):
     return {'name': self.name, 'quantum': self.quantum}
 
 
+class Phased(Policy):
+  """policy `first` for the first `switch_at` choice points, then `then` (used for
+  "arbitrary prefix, fair suffix" bounded-liveness checks)"""
+  name = 'phased'
+
+  def __init__(self, first, switch_at, then):
+    self.first, self.switch_at, self.then = first, switch_at, then
+
+  def attach(self, sim):
+    self.sim = sim
+    self.first.attach(sim)
+    self.then.attach(sim)
+
+  def on_spawn(self, ctl):
+    self.first.on_spawn(ctl)
+    self.then.on_spawn(ctl)
+
+  def choose(self, cands, cur):
+    if self.sim.choice_points <= self.switch_at:
+      return self.first.choose(cands, cur)
+    return self.then.choose(cands, cur)
+
+  def describe(self):
+    return {'name': self.name, 'first': self.first.describe(), 'switch_at': self.switch_at, 'then': self.then.describe()}
+
+
 class Replay(Policy):
   """explicit decision list: one entry per choice point at which more than one
   thread could run; entry = thread idx, or None for 'default' (continue the current
@@ -253,6 +280,7 @@ class Sim(object):
     self.decisions = []
     self.record_decisions = True
     self.history = []       # semantic records: (seq, thread name, kind, label, op, detail)
+    self.history_t = []     # virtual time (us) of each history record, same index
     self.digest = 0
     self.aborting = False
     self.finished = None    # reason
@@ -297,6 +325,7 @@ class Sim(object):
     c = getattr(_tls, 'ctl', None)
     tname = c.name if c is not None else 'ctrl'
     self.history.append((self.seq, tname, kind, label, op, detail))
+    self.history_t.append(self.now_us)
     self.digest = hash((self.digest, self.seq, c.idx if c is not None else -1,
                         _stable(kind), _stable(label), _stable(op)))
     return self.seq
@@ -424,6 +453,8 @@ class Sim(object):
       return
     if self.aborting:
       raise SimAbort()
+    if ctl.atomic:
+      return
     self.steps += 1
     ctl.steps += 1
     if self.steps > self.max_steps:
